@@ -51,7 +51,8 @@ func init() {
 }
 
 var metas = []struct{ labels, ann map[string]string }{
-	{map[string]string{"app": "web", "team/x": "a"}, map[string]string{"gostatsd.atlassian.com/tag1": "v1", "other": "o"}},
+	// (a label and an annotation that give the same tag name; two annotation keys that one alternative regex maps to the same name)
+	{map[string]string{"app": "web", "team/x": "a"}, map[string]string{"gostatsd.atlassian.com/tag1": "v1", "other": "o", "gostatsd.atlassian.com/app": "frontend", "gostatsd.atlassian.com/er": "e2"}},
 	{map[string]string{"app": "db"}, map[string]string{"gostatsd.atlassian.com/tag1": "v2", "gostatsd.atlassian.com/tag2": "w"}},
 }
 
@@ -391,11 +392,17 @@ func main() {
 			Cfg int
 			Seq []op
 		}
-		var vp struct{ Viper bool }
+		var vp struct {
+			Viper bool
+			Async []int
+		}
 		vrt.LoadReplay(&rp)
 		vrt.LoadReplay(&vp)
 		msg := ""
-		if vp.Viper {
+		if vp.Async != nil {
+			msg, _ = asyncRun(rcfgs[2], vp.Async)
+			fmt.Println(asyncSeqNames(vp.Async))
+		} else if vp.Viper {
 			viperChecks()
 			for _, v := range res.Violations {
 				msg += v.Msg + "\n"
@@ -437,9 +444,9 @@ func main() {
 	if *vrt.Shard == 0 {
 		viperChecks()
 	}
+	asyncFamily()
 	res.Info["fixpoint_reached"] = fix
 	res.Info["max_depth"] = maxDepth
-	res.Exhaustive = true
 	res.Sample(map[string]any{"regex": rcfgs[2], "history": []string{"set(p0,Running X meta0)", "lookup(X)", "set(p0,Running X meta1)", "lookup(X)", "delete(p0)", "set(p1,Running X meta0)", "lookup(X)"}})
 	res.States = int64(len(states))
 	res.DistinctNontrivial = int64(len(nontrivial))
